@@ -58,6 +58,12 @@ pub fn exercise(bytes: &[u8], st: &mut Stats, decoded: &dyn Fn() -> String) -> R
     Ok(())
 }
 
+/// `modules` with extreme ids (0 / 0x7fffffff / 0x80000000 / 0xffffffff), extreme header words and
+/// occasionally instructions of thousands of words
+fn sub_edge_ids(input: &[u8], st: &mut Stats) -> R {
+    with_edge_ids(|| sub_modules(input, st))
+}
+
 fn sub_modules(input: &[u8], st: &mut Stats) -> R {
     let mut cs = Cs::new(input);
     let mode = match cs.below(4) {
@@ -331,6 +337,7 @@ pub const SUBS: &[Sub] = &[
     Sub { name: "junk", f: sub_junk },
     Sub { name: "raw", f: sub_raw },
     Sub { name: "decoder", f: sub_decoder },
+    Sub { name: "edge-ids", f: sub_edge_ids },
 ];
 
 pub fn run(ctx: &Ctx) {
@@ -342,6 +349,7 @@ pub fn run(ctx: &Ctx) {
     drive_random(ctx, &SUBS[4], ctx.n(100_000, 50_000_000), 400);
     drive_random(ctx, &SUBS[5], ctx.n(50_000, 20_000_000), 200);
     drive_random(ctx, &SUBS[6], ctx.n(100_000, 50_000_000), 300);
+    drive_random(ctx, &SUBS[7], ctx.n(10_000, 5_000_000), 1200);
     if !ctx.quick() && !ctx.failed() {
         crate::fuzzing::drive_fuzz(ctx, "bytes", 1_000_000);
         crate::fuzzing::drive_fuzz(ctx, "modules", 300_000);
